@@ -182,8 +182,8 @@ PROPS = {
              "record is excluded by construction while finding F17 is open (counted in excluded_by_known_finding). "
              "Non-trivial: >= 1 damaged record among >= 2 pending ones.",
         assumptions=ASSUME_SIM + ["a truncation to >= 12 bytes or a byte flip passes the 32-bit checksum with probability 2^-32; such forged-valid records are outside the property"],
-        quick=dict(engines=[rapid('^TestC16Damage', 800, steps=30), rapid('^TestC16KnownF17', 40, shards=1, fixed=True)]),
-        thorough=dict(engines=[rapid('^TestC16Damage', 20000, shards=14, steps=50, timeout=1500), rapid('^TestC16KnownF17', 200, shards=1, fixed=True)]),
+        quick=dict(engines=[rapid('^TestC16Damage', 800, steps=30), rapid('^TestC16KnownF17', 40, shards=1, fixed=True), rapid('^TestC16KnownF31', 6, shards=1, fixed=True)]),
+        thorough=dict(engines=[rapid('^TestC16Damage', 20000, shards=14, steps=50, timeout=1500), rapid('^TestC16KnownF17', 200, shards=1, fixed=True), rapid('^TestC16KnownF31', 20, shards=1, fixed=True)]),
     ),
     'C17': dict(
         claimed=True,
@@ -421,7 +421,7 @@ RULE_ADDENDA = {
            "slowSave overlaps Saves of the read routine and of both publish levels. A single-byte alteration of an inbound marker must be reported by AdoptSession too; the parked publish of slowSave may be retained, and 0-2 QoS 0 publishes compose their packets meanwhile. In 1 of 4 adoptions of the damaged store Persistence.Delete fails once (no panic, still reported, never used). Behind the recording Persistence double sits, per case, its own map (5 in 8), the library's in-memory map (2 in 8) or mqtt.FileSystem on a scratch directory (1 in 8). After the adoption of the altered store the first ReadSlices must neither panic nor fail (client-identifier record excepted: F17).",
     'C16': "Also: AtLeastOnceMax/ExactlyOnceMax from {16,16,2,3,4}; 1 in 8 adoptions with Persistence.Delete failing once "
            "(only 'no panic' is judged then); 'second life' (the adopted client fills its queues, the process stops, the next "
-           "AdoptSession without new damage must work, connect and complete). Before the second stop 0-4 PUBRECs are released; every transfer the adopted client itself accepted and had pending at its stop must be on the first connection of the next process. Behind the recording Persistence double sits, per case, its own map (5 in 8), the library's in-memory map (2 in 8) or mqtt.FileSystem on a scratch directory (1 in 8). In 1 of 4 adoptions the store is mqtt.FileSystem with 1-3 stray directory entries next to the records: an upper-case spelling of a record's name, a sub-directory named like a key, a spool leftover, foreign files, names of 4 and 6 hexadecimals. Damage kind 'hollow': a record whose bytes are well formed (sequence number plus matching checksum) yet hold no packet.",
+           "AdoptSession without new damage must work, connect and complete). Before the second stop 0-4 PUBRECs are released; every transfer the adopted client itself accepted and had pending at its stop must be on the first connection of the next process. Behind the recording Persistence double sits, per case, its own map (5 in 8), the library's in-memory map (2 in 8) or mqtt.FileSystem on a scratch directory (1 in 8). In 1 of 4 adoptions the store is mqtt.FileSystem with 1-3 stray directory entries next to the records: an upper-case spelling of a record's name, a sub-directory named like a key, a spool leftover, foreign files, names of 4 and 6 hexadecimals. Damage kind 'hollow': a record whose bytes are well formed (sequence number plus matching checksum) yet hold no packet. One adoption in five is preceded by a misconfigured one (limits of 1) whose warnings count. Stray directories named like a record which a publish of the history will store are excluded by construction (open finding F31, probe TestC16KnownF31).",
     'C17': "Also: resendFails (connection lost; the next one resets 0-80 bytes into the retransmission; the one after is healthy). ackDeleteFails (the Delete asked for by an acknowledgement fails; reconnect). TestC17Slots/TestC11CounterLap: in 1 of 3 cases an outage first, with 1032 requests refused while down. twoForTheLastSlot (one slot left, the reconnect parked inside its retransmission, two publishes arrive: exactly one ErrMax, no blocking). Behind the recording Persistence double sits, per case, its own map (5 in 8), the library's in-memory map (2 in 8) or mqtt.FileSystem on a scratch directory (1 in 8). Slots case: optionally a lone request abandoned after submission, then its successor (must not get the identifier whose answer is still owed).",
     'C18': "Also: in a held handshake a persisted publish whose Save is still running when the CONNACK arrives. Behind the recording Persistence double sits, per case, its own map (5 in 8), the library's in-memory map (2 in 8) or mqtt.FileSystem on a scratch directory (1 in 8). An attempt whose CONNECT gets through (also with one tolerated expiry after progress) and whose CONNACK accepts at once must establish the connection. Raw CONNACK variants include odd reserved flag bytes (0x03, 0x81, 0xff) with return code 0.",
 }
